@@ -272,6 +272,37 @@ def run(ctx, res):
             os.environ.pop('HOME', None)
         else:
             os.environ['HOME'] = saved_home
+    # the same RELATIVE source and output names used from two working directories in one process: each build reads and writes the files
+    # of ITS directory
+    saved_cwd2 = os.getcwd()
+    try:
+        dirs = [os.path.join(ctx.tmp, 'wd_a'), os.path.join(ctx.tmp, 'wd_b')]
+        contents = {}
+        for d in dirs:
+            os.makedirs(d, exist_ok=True)
+            src = w.new_cart('.p8')
+            shutil.copy(src, os.path.join(d, 'art.p8'))
+            contents[d] = cart_contents(src)
+        for rnd_ in range(2):
+            for d in dirs:
+                os.chdir(d)
+                if os.path.exists('out.p8'):
+                    os.remove('out.p8')
+                rc = run_build(['--gfx', 'art.p8', '--sfx', 'art.p8', 'out.p8'])
+                res.evaluations += 1
+                res.count('relative-names-after-chdir')
+                res.nontrivial.add(('chdir', os.path.basename(d), rnd_))
+                key = 'C13:chdir:%s:%d' % (os.path.basename(d), rnd_)
+                if rc != 0 or not os.path.exists(os.path.join(d, 'out.p8')):
+                    res.fail(key, 'build --gfx art.p8 --sfx art.p8 out.p8 in %s: rc=%r, out.p8 written there: %s' % (
+                        os.path.basename(d), rc, os.path.exists(os.path.join(d, 'out.p8'))), {'cwd': os.path.basename(d)})
+                    continue
+                got = cart_contents(os.path.join(d, 'out.p8'))
+                if got['gfx'] != contents[d]['gfx'] or got['sfx'] != contents[d]['sfx']:
+                    res.fail(key, 'build run in %s with relative names took gfx/sfx from another directory\'s art.p8' % os.path.basename(d),
+                             {'cwd': os.path.basename(d), 'history': 'the same command was run in %s before' % os.path.basename(dirs[0])})
+    finally:
+        os.chdir(saved_cwd2)
     # output name that is not a cart
     rc = run_build(['--empty-gfx', os.path.join(ctx.tmp, 'out.txt')])
     res.evaluations += 1
